@@ -14,6 +14,17 @@
 //   op 6 : (6 ndim nvar db model ivar0 member)                 -> (M)
 //   op 7 : (7 ndim nvar dbin dbout model neigh nbsimu seed nbtuba) -> (err dbout-dump)
 //   op 8 : (8 db (ivar..) (nbgh..) useSel useVerr useCoord)    -> (index active nactive)
+//   grid   = (nx dx x0 (col..))   col as for db (no X column: coordinates come from the grid)
+//   op 20: (20 ndim dbin dbout exponent dmax|())               -> (err dbout-dump)   inverseDistance
+//   op 21: (21 ndim dbin dbout neigh type order)               -> (err dbout-dump)   type 0 movingAverage 1 movingMedian 2 nearestNeighbor 3 leastSquares
+//   op 22: (22 db respcol (auxcol..) flagCst)                  -> (count (coeffs) variance varres)   regression mode 0
+//   op 23: (23 ndim db grid col1 col2|-1 oper)                 -> ((values per cell))  dbStatisticsPerCell; oper 0 NUM 1 MEAN 2 VAR 3 MINI 4 MAXI 5 SUM 6 COV
+//   op 24: (24 ndim dbin dbout col dist_type dmax flag_ball)   -> (err dbout-dump)   migrate (point to point)
+//   op 25: (25 ndim grid ((npas (grincr..))..) calc)           -> same layout as op 3    variogram on a grid
+//   op 26: (26 ndim nvar db calc (nxx..) (dxx..))              -> (ok (column..))        db_vmap on points (no FFT)
+//   op 27: (27 ndim db dir lagmax varmax lagnb varnb)          -> (ok (column..))        db_vcloud
+//   op 28: (28 db)                                             -> (err (eigval) (mean) (sigma))   PCA::pca_compute
+//   op 29: (29 db nbpoly)                                      -> (err (psihn))          AnamHermite::fitFromLocator
 #include "sx.hpp"
 #include <sstream>
 #include "Db/Db.hpp"
@@ -36,6 +47,14 @@
 #include "Enum/ECalcVario.hpp"
 #include "Enum/ECalcMember.hpp"
 #include "Enum/EStatOption.hpp"
+#include "Db/DbGrid.hpp"
+#include "Estimation/CalcSimpleInterpolation.hpp"
+#include "Calculators/CalcMigrate.hpp"
+#include "Stats/Regression.hpp"
+#include "Stats/PCA.hpp"
+#include "Variogram/VMap.hpp"
+#include "Variogram/VCloud.hpp"
+#include "Anamorphosis/AnamHermite.hpp"
 #include "Basic/OptDbg.hpp"
 #include "Basic/VectorHelper.hpp"
 #include "geoslib_define.h"
@@ -75,6 +94,37 @@ static Db* makeDb(const Sx& d) {
     delete db; db = red;
   }
   return db;
+}
+
+static DbGrid* makeGrid(const Sx& g) {
+  VectorInt nx = g[0].vi(); VectorDouble dx = g[1].vd(), x0 = g[2].vd();
+  int n = 1; for (auto k : nx) n *= k;
+  VectorDouble tab; VectorString names; std::vector<std::pair<long long, int>> locs; int nk = 0;
+  for (auto& col : g[3].l) {
+    long long lc = col[0].i(); int idx = (int) col[1].i();
+    auto v = col[2].vd(TEST);
+    if ((int) v.size() != n) throw std::runtime_error("grid column length");
+    tab.insert(tab.end(), v.begin(), v.end());
+    names.push_back(std::string(PFX[lc]) + std::to_string(lc == 0 ? ++nk : idx + 1));
+    locs.push_back({lc, idx});
+  }
+  DbGrid* db = DbGrid::create(nx, dx, x0, VectorDouble(), ELoadBy::COLUMN, tab, names, VectorString(), false, true);
+  if (db == nullptr) throw std::runtime_error("DbGrid::create");
+  for (size_t k = 0; k < names.size(); k++) if (locs[k].first != 0) db->setLocator(names[k], locOf(locs[k].first), locs[k].second);
+  return db;
+}
+static std::string varioDump(const Vario* v, int ndir, int nvar) {
+  std::ostringstream o;
+  o << "(1 " << sx_vd(v->getMeans()) << " " << sx_vd(v->getVars()) << " (";
+  for (int idir = 0; idir < ndir; idir++) {
+    o << "(";
+    for (int ivar = 0; ivar < nvar; ivar++) for (int jvar = 0; jvar <= ivar; jvar++)
+      o << "(" << sx_vd(v->getSwVec(idir, ivar, jvar, false)) << " " << sx_vd(v->getHhVec(idir, ivar, jvar, false)) << " "
+        << sx_vd(v->getGgVec(idir, ivar, jvar, false, false, false)) << ")";
+    o << ")";
+  }
+  o << "))";
+  return o.str();
 }
 
 static std::string dumpDb(const Db* db) {
@@ -227,6 +277,98 @@ static std::string run(const Sx& c) {
     o << "(" << vviStr(db->getMultipleRanksActive(c[2].vi(), c[3].vi(), c[4].b(), c[5].b(), c[6].b())) << " " << sx_vi(act) << " "
       << db->getSampleNumber(true) << ")";
     delete db;
+    return o.str();
+  }
+  if (op == 20 || op == 21 || op == 24) {
+    int ndim = (int) c[1].i();
+    defineDefaultSpace(ESpaceType::RN, ndim);
+    Db* dbin = makeDb(c[2]); Db* dbout = makeDb(c[3]);
+    int err = 0;
+    if (op == 20) err = inverseDistance(dbin, dbout, c[4].d(), false, c[5].d(TEST));
+    else if (op == 21) {
+      ANeigh* neigh = makeNeigh(c[4], false);
+      long long ty = c[5].i();
+      if (ty == 0) err = movingAverage(dbin, dbout, neigh);
+      else if (ty == 1) err = movingMedian(dbin, dbout, neigh);
+      else if (ty == 2) err = nearestNeighbor(dbin, dbout);
+      else err = leastSquares(dbin, dbout, neigh, (int) c[6].i());
+      delete neigh;
+    }
+    else err = migrate(dbin, dbout, dbin->getNameByColIdx((int) c[4].i()), (int) c[5].i(), c[6].vd(), false, false, c[7].b());
+    o << "(" << err << " " << dumpDb(dbout) << ")";
+    delete dbin; delete dbout;
+    return o.str();
+  }
+  if (op == 22) {
+    Db* db = makeDb(c[1]);
+    VectorString aux; for (auto& k : c[3].l) aux.push_back(db->getNameByColIdx((int) k.i()));
+    Regression r = regression(db, db->getNameByColIdx((int) c[2].i()), aux, 0, c[4].b());
+    o << "(" << r.getCount() << " " << sx_vd(r.getCoeffs()) << " " << sx_d(r.getVariance()) << " " << sx_d(r.getVarres()) << ")";
+    delete db;
+    return o.str();
+  }
+  if (op == 23) {
+    int ndim = (int) c[1].i();
+    defineDefaultSpace(ESpaceType::RN, ndim);
+    Db* db = makeDb(c[2]); DbGrid* g = makeGrid(c[3]);
+    static const EStatOption* OPS[] = {&EStatOption::NUM, &EStatOption::MEAN, &EStatOption::VAR, &EStatOption::MINI, &EStatOption::MAXI, &EStatOption::SUM, &EStatOption::COV};
+    String n1 = db->getNameByColIdx((int) c[4].i());
+    String n2 = c[5].i() >= 0 ? db->getNameByColIdx((int) c[5].i()) : String();
+    VectorDouble r = dbStatisticsPerCell(db, g, *OPS[c[6].i()], n1, n2);
+    o << "(" << sx_vd(r) << ")";
+    delete db; delete g;
+    return o.str();
+  }
+  if (op == 25) {
+    int ndim = (int) c[1].i();
+    defineDefaultSpace(ESpaceType::RN, ndim);
+    DbGrid* g = makeGrid(c[2]);
+    int nvar = g->getLocNumber(ELoc::Z);
+    VarioParam vp;
+    for (auto& gd : c[3].l) { DirParam* dp = DirParam::createFromGrid(g, (int) gd[0].i(), gd[1].vi()); vp.addDir(*dp); delete dp; }
+    Vario* v = Vario::computeFromDb(vp, g, calcOf(c[4].i()));
+    if (v == nullptr) { delete g; return "(0 () () ())"; }
+    std::string r = varioDump(v, (int) c[3].size(), nvar);
+    delete v; delete g;
+    return r;
+  }
+  if (op == 26 || op == 27) {
+    int ndim = (int) c[1].i();
+    defineDefaultSpace(ESpaceType::RN, ndim);
+    DbGrid* m = nullptr; Db* db = nullptr; int nkeep = 0;
+    if (op == 26) {
+      int nvar = (int) c[2].i(); db = makeDb(c[3]);
+      m = db_vmap(db, calcOf(c[4].i()), c[5].vi(), c[6].vd(), 0, false);
+      nkeep = nvar * (nvar + 1);
+    } else {
+      db = makeDb(c[2]); const Sx& d = c[3];
+      DirParam dp((int) d[0].i(), d[1].d(), d[2].d(), d[3].d(), 0, 0, TEST, TEST, 0., VectorDouble(), d[4].vd(), TEST);
+      VarioParam vp; vp.addDir(dp);
+      m = db_vcloud(db, &vp, c[4].d(TEST), c[5].d(TEST), (int) c[6].i(), (int) c[7].i());
+      nkeep = 1;
+    }
+    if (m == nullptr) { delete db; return "(0 ())"; }
+    int nc = m->getColumnNumber();
+    o << "(1 (";
+    for (int k = nc - nkeep; k < nc; k++) o << sx_vd(m->getColumnByColIdx(k, false, false)) << " ";
+    o << "))";
+    delete m; delete db;
+    return o.str();
+  }
+  if (op == 28) {
+    Db* db = makeDb(c[1]);
+    PCA pca;
+    int err = pca.pca_compute(db, false);
+    o << "(" << err << " " << sx_vd(pca.getEigVals()) << " " << sx_vd(pca.getMeans()) << " " << sx_vd(pca.getSigmas()) << ")";
+    delete db;
+    return o.str();
+  }
+  if (op == 29) {
+    Db* db = makeDb(c[1]);
+    AnamHermite* anam = AnamHermite::create((int) c[2].i());
+    int err = anam->fitFromLocator(db, ELoc::Z);
+    o << "(" << err << " " << sx_vd(anam->getPsiHns()) << ")";
+    delete anam; delete db;
     return o.str();
   }
   return "(-997 1)";
